@@ -35,7 +35,7 @@ def quiet():
 
 PREIMPORT = [
     "chmpy", "chmpy.crystal", "chmpy.core.dimer", "chmpy.ext.charges", "chmpy.ext.vasp", "chmpy.fmt.shelx",
-    "chmpy.fmt.vasp", "chmpy.fmt.cif", "chmpy.shape", "chmpy.crystal.sfac", "scipy.sparse.csgraph",
+    "chmpy.fmt.vasp", "chmpy.fmt.cif", "chmpy.fmt.gulp", "chmpy.fmt.crystal17", "chmpy.fmt.xtb", "chmpy.shape", "chmpy.crystal.sfac", "scipy.sparse.csgraph",
     "scipy.spatial.distance", "sim.gen", "sim.minimise",
 ]  # fmt: skip
 
@@ -555,12 +555,34 @@ def determinism_main(seed, workers):
 
 
 # ------------------------------------------------------------------ main
+def inject_applicable_task(si):
+    from . import gen
+    from .isolate import forked
+
+    return forked(gen.inject_applicable_for_source, si, timeout=RUN_TIMEOUT)
+
+
+def applicable_inject_templates(pool):
+    """Fault-point templates whose seam is actually called by their query."""
+    from . import gen
+
+    futs = [pool.submit(inject_applicable_task, si) for si in range(len(gen.INJECT_SOURCES))]
+    out = []
+    for f in futs:
+        out.extend(f.result(timeout=RUN_TIMEOUT + 60))
+    return sorted(out)
+
+
 def quick_plan(seed, args):
     from . import gen
 
     n_random = args.random_runs if args.random_runs is not None else 800
+    # quick: the templates on the 1098-atom bundled file (the expensive ones) are
+    # taken in halves that alternate with the seed; thorough runs all of them
+    tmpl = [i for i in range(gen.N_TEMPLATES)
+            if gen.template_of(i)[3][0] != "file" or (i + seed) % 2 == 0]
     return [
-        ("template", list(range(gen.N_TEMPLATES))),
+        ("template", tmpl),
         ("inject", list(range(gen.N_INJECT_TEMPLATES))),
         ("slowpairs", list(range(gen.N_SLOWPAIRS))),
         ("fork3", list(range(gen.N_FORK3))),
@@ -620,6 +642,10 @@ def check_main(tier, seed, args):
         with make_pool(workers) as pool:
             if tier == "quick":
                 plan = quick_plan(seed, args)
+                keep = applicable_inject_templates(pool)
+                plan = [(st, keep if st == "inject" else idx) for st, idx in plan]
+                batch.stats["inject_templates_defined"] = gen.N_INJECT_TEMPLATES
+                batch.stats["inject_templates_with_a_live_seam"] = len(keep)
                 tasks = interleave([list(chunks(st, seed, idx, want_fp=True)) for st, idx in plan])
                 # VERIF_STOP_EARLY (used by tools/run_seeded.py): a handful of failing histories is enough
                 run_tasks(pool, tasks, batch, max_violating_chunks=4 if os.environ.get("VERIF_STOP_EARLY") == "1" else 40)
@@ -681,7 +707,10 @@ def thorough_batch(pool, seed, args, batch):
     budget = args.budget if args.budget is not None else float(os.environ.get("VERIF_BUDGET_S", "2700"))
     t0 = time.time()
     tasks = list(chunks("template", seed, range(gen.N_TEMPLATES), want_fp=True))
-    tasks += list(chunks("inject", seed, range(gen.N_INJECT_TEMPLATES)))
+    keep = applicable_inject_templates(pool)
+    batch.stats["inject_templates_defined"] = gen.N_INJECT_TEMPLATES
+    batch.stats["inject_templates_with_a_live_seam"] = len(keep)
+    tasks += list(chunks("inject", seed, keep))
     tasks += list(chunks("slowpairs", seed, range(gen.N_SLOWPAIRS), want_fp=True))
     tasks += list(chunks("fork3", seed, range(gen.N_FORK3), want_fp=True))
     tasks += list(chunks("big", seed, range(gen.N_BIG)))
@@ -809,6 +838,7 @@ def write_evidence(tier, seed, batch, wall, workers, n_viol, klines, det_info, s
             "checked_pairs_equal_within_tolerance_but_not_bitwise": s["inexact_equal_pairs"],
             "inexact_by_query_and_reference_mode": pick("inexact:"),
             "runs_by_stratum": dict(batch.per_stratum),
+            "fault_point_templates": {"defined": s["inject_templates_defined"], "seam_called_by_the_query": s["inject_templates_with_a_live_seam"]},
             "worker_seconds_by_stratum": {k: round(v, 1) for k, v in pick("cpu_s:").items()},
             "runs_by_status": dict(batch.status),
             "source_build_failures_not_judged": pick("source_failed:"),
